@@ -146,6 +146,9 @@ def queries_part(case, res):
         tasks = []
         for k, s in enumerate(seqs(CLASSES["task"][1])):
             t = ns.BaseTask("t%d" % k)
+            if rng.random() < 0.2:
+                s = [int(x) for x in s]      # e.g. a log taken over from a JSON file without conversion
+                res.count("C19.logs_with_equal_but_foreign_members")
             t.state_record_list = s
             tasks.append(t)
         wf = ns.BaseWorkflow(tasks)
@@ -182,6 +185,11 @@ def queries_part(case, res):
         fs = []
         for k, s in enumerate(seqs(CLASSES["facility"][1])):
             f = ns.BaseFacility("f%d" % k)
+            if rng.random() < 0.3:
+                # equal values, other objects: the sibling enum (the library itself stores BaseWorkerState
+                # members in facility logs in append_project_log_from_simple_json) or plain ints
+                s = [WS(int(x)) if rng.random() < 0.5 else int(x) for x in s]
+                res.count("C19.logs_with_equal_but_foreign_members")
             f.state_record_list = s
             fs.append(f)
         wp = ns.BaseWorkplace("wp", facility_list=fs)
@@ -231,6 +239,24 @@ def simlogs_part(case, res):
             check_encoder(res, kind, o, seq, margin)
             o.state_record_list = saved
             res.count("C19.real_log_checks")
+    # dates after absence edits: the last logged step must fall on the requested date
+    if p.time >= 2 and rng.random() < 0.6:
+        T0 = p.time
+        lst = rng.choice([[T0 - 1, T0], [1], [0, T0], [T0 - 1], [1, T0 - 1, T0, T0 + 1]])
+        try:
+            p.insert_absence_time_list(list(lst))
+        except Exception:
+            lst = None
+        if lst is not None and p.workflow.task_list:
+            n_steps = len(p.workflow.task_list[0].state_record_list)
+            last = datetime.datetime(2022, 3, 4, 5, 0, 0)
+            unit = rng.choice([datetime.timedelta(hours=1), datetime.timedelta(days=1), datetime.timedelta(minutes=20)])
+            start = p.set_last_datetime(last, unit_timedelta=unit)
+            res.count("C19.date_checks_after_absence_edit")
+            if n_steps >= 1 and start + (n_steps - 1) * unit != last:
+                res.violate("C19", "C19/set-last-datetime:after-absence-edit",
+                            "after insert_absence_time_list(%s) the logs have %d steps; start %s + (steps-1)*unit = %s, requested last date %s" % (
+                                lst, n_steps, start, start + (n_steps - 1) * unit, last))
     T = p.time
     for _ in range(6):
         times = sorted(set(rng.randint(0, max(0, T)) for _ in range(rng.randint(1, 3))))
